@@ -845,3 +845,57 @@ def r04_5(ctx):
                 else:
                     ctx.ok(1)
     ctx.sample({"sequences": n})
+
+
+STATEFUL = (("bellows.ash", "AshProtocol"), ("bellows.uart", "Gateway"), ("bellows.ezsp", "EZSP"), ("bellows.ezsp.protocol", "ProtocolHandler"),
+            ("bellows.multicast", "Multicast"), ("bellows.zigbee.application", "ControllerApplication"), ("bellows.thread", "ThreadsafeProxy"),
+            ("bellows.thread", "EventLoopThread"))
+
+
+@rule("R01.5", ["C01", "C05", "C06", "C10", "C12", "C15", "C17"], "T-WMW", floor=8)
+def r01_5(ctx):
+    """Per-link / per-connection state is per instance: in the stateful classes (AshProtocol, Gateway, EZSP, ProtocolHandler,
+    Multicast, ControllerApplication, the thread helpers) no mutable object - dict, list, set, bytearray, deque, defaultdict,
+    asyncio future / event / lock / semaphore - is created in the class body unless the initialiser rebinds that attribute
+    for every instance.  A class-level container is one object shared by every link in the process: an acknowledgement on
+    one link would complete a send of another, a failure reported once would be remembered for every later connection."""
+    repo = ctx.repo
+    mutable_calls = ("dict", "list", "set", "bytearray", "collections.deque", "deque", "collections.defaultdict", "defaultdict", "collections.OrderedDict",
+                     "asyncio.Future", "asyncio.Event", "asyncio.Lock", "asyncio.Semaphore", "asyncio.Queue", "asyncio.Condition", "zigpy.util.Requests",
+                     "collections.Counter", "Counter")
+    for mod, cname in STATEFUL:
+        try:
+            c = repo.cls(mod, cname)
+        except Exception:
+            raise AnalysisError(f"anchor vanished: class {mod}.{cname}")
+        classes = [k for k in c.mro() if isinstance(k, ClassRef) and k.mod.startswith("bellows")]
+        init_sets = set()
+        for k in classes:
+            init = k.attrs.get("__init__")
+            if isinstance(init, FuncRef):
+                for st in init.node.body:  # unconditional, top-level rebinding only
+                    tg = st.targets if isinstance(st, ast.Assign) else ([st.target] if isinstance(st, ast.AnnAssign) and st.value is not None else [])
+                    for t_ in tg:
+                        if isinstance(t_, ast.Attribute) and text(t_.value) == "self":
+                            init_sets.add(t_.attr)
+        for k in classes:
+            for st in k.node.body:
+                tgt, val = None, None
+                if isinstance(st, ast.Assign) and len(st.targets) == 1 and isinstance(st.targets[0], ast.Name):
+                    tgt, val = st.targets[0].id, st.value
+                elif isinstance(st, ast.AnnAssign) and isinstance(st.target, ast.Name) and st.value is not None:
+                    tgt, val = st.target.id, st.value
+                if tgt is None:
+                    continue
+                shared = (isinstance(val, (ast.Dict, ast.List, ast.Set, ast.ListComp, ast.DictComp, ast.SetComp)) and not tgt.isupper() and not tgt.startswith("_BY_")) or \
+                    (isinstance(val, ast.Call) and text(val.func) in mutable_calls and not tgt.isupper())
+                if shared and not (isinstance(val, ast.Call) and text(val.func).startswith("asyncio.")):
+                    # a container that nothing ever modifies (a class-level constant table) is not state
+                    mutated = [w for w in index(repo).writers(tgt) if w[2] != "store" or w[0].name != "__init__"]
+                    mutated = [w for w in mutated if not (w[2] == "store" and w[0].cls is None)]
+                    shared = bool(mutated)
+                if not shared:
+                    ctx.ok(1, (cname, tgt))
+                    continue
+                ctx.require(tgt in init_sets, f"class-level-state:{k.name}.{tgt}", f"{k.name}.{tgt} = {text(val)[:40]} is created once in the class body and not rebound by "
+                            f"__init__: every {cname} instance in the process shares the same object", file=k.node and repo.relpath(k.mod), line=st.lineno)
